@@ -50,6 +50,10 @@ type World struct {
 	scratch string
 	curStep int
 
+	// FreeHelpers is set once a free-running iavl goroutine (an exporter kept
+	// open as a pin) shares the disk: per-step storage call counts then depend
+	// on timing and are left out of the event log (results are not).
+	FreeHelpers bool
 	// Imported is set once the run continued on an imported database (node
 	// keys were re-assigned, so nonces are no longer R2's pre-order numbers).
 	Imported bool
